@@ -196,7 +196,10 @@ func main() {
 		})
 
 		r.Part("E3-close-bodies", func(t *explore.T) {
-			codes := []int{0, 1000, 1005, 2999, 3000, 4999, 65535}
+			codes := []int{0, 999, 2999, 3000, 4999, 65535}
+			for c := 1000; c <= 1016; c++ {
+				codes = append(codes, c)
+			}
 			for _, c := range codes {
 				for n := 0; n <= 130; n++ {
 					for variant := 0; variant < 14; variant++ {
@@ -218,34 +221,42 @@ func main() {
 								reason = strings.Repeat("p", pad) + strings.Repeat(ch, (n-pad)/len(ch))
 								reason += strings.Repeat("x", n-len(reason))
 							}
-							body := ws.NewCloseFrameBody(ws.StatusCode(c), reason)
-							if len(body) > 125 {
-								return explore.Failf("body-too-long", "%d", len(body))
-							}
-							wantReason := reason
-							if len(wantReason) > 123 {
-								wantReason = wantReason[:123]
-							}
-							if len(body) != 2+len(wantReason) {
-								return explore.Failf("body-length", "got %d want %d", len(body), 2+len(wantReason))
-							}
-							for _, parse := range []func([]byte) (ws.StatusCode, string){ws.ParseCloseFrameData, ws.ParseCloseFrameDataUnsafe} {
-								gc, gr := parse(body)
-								if int(gc) != c || gr != wantReason {
-									return explore.Failf("parse-back", "got (%d,%q) want (%d,%q)", gc, gr, c, wantReason)
+							// built twice: the first body is the caller's to do with as it likes (a client
+							// masks it in place before sending), which must not reach the second one
+							for round := 0; round < 2; round++ {
+								body := ws.NewCloseFrameBody(ws.StatusCode(c), reason)
+								if len(body) > 125 {
+									return explore.Failf("body-too-long", "%d", len(body))
 								}
-							}
-							// PutCloseFrameBody round trip
-							if n <= 123 {
-								p := make([]byte, 2+n)
-								ws.PutCloseFrameBody(p, ws.StatusCode(c), reason)
-								if !bytes.Equal(p, body) {
-									return explore.Failf("PutCloseFrameBody", "differs from NewCloseFrameBody")
+								wantReason := reason
+								if len(wantReason) > 123 {
+									wantReason = wantReason[:123]
 								}
-							}
-							f := ws.NewCloseFrame(body)
-							if !f.Header.Fin || f.Header.OpCode != ws.OpClose || f.Header.Length != int64(len(body)) {
-								return explore.Failf("NewCloseFrame-header", "%+v", f.Header)
+								if len(body) != 2+len(wantReason) {
+									return explore.Failf("body-length", "got %d want %d", len(body), 2+len(wantReason))
+								}
+								for _, parse := range []func([]byte) (ws.StatusCode, string){ws.ParseCloseFrameData, ws.ParseCloseFrameDataUnsafe} {
+									gc, gr := parse(body)
+									if int(gc) != c || gr != wantReason {
+										return explore.Failf("parse-back", "got (%d,%q) want (%d,%q)", gc, gr, c, wantReason)
+									}
+								}
+								// PutCloseFrameBody round trip
+								if n <= 123 {
+									p := make([]byte, 2+n)
+									ws.PutCloseFrameBody(p, ws.StatusCode(c), reason)
+									if !bytes.Equal(p, body) {
+										return explore.Failf("PutCloseFrameBody", "differs from NewCloseFrameBody")
+									}
+								}
+								f := ws.NewCloseFrame(body)
+								if !f.Header.Fin || f.Header.OpCode != ws.OpClose || f.Header.Length != int64(len(body)) {
+									return explore.Failf("NewCloseFrame-header", "%+v", f.Header)
+								}
+								ws.MaskFrameInPlaceWith(f, [4]byte{0x12, 0x34, 0x56, 0x78})
+								for i := range body[:cap(body)] {
+									body[:cap(body)][i] ^= 0xA5
+								}
 							}
 							t.Outcome("ok")
 							return nil
